@@ -305,6 +305,22 @@ def run(tier: str) -> int:
             pyfails += r["pyfails"]
             if len(ck.samples) < 6:
                 ck.samples += r["samples"][:2]
+    # render – edit in place – render again histories on ordinary trees: the statement is evaluated on the output of the
+    # edited, previously rendered object against the canonical form of what the object now is
+    import histories
+    hc = histories.render_history_cases(ck.rng, ck.budget(1500, 20000), plain=True)
+    q = []
+    for l, im in hc:
+        q.append(f"holds {PID} {l} | {im}")
+    hans = ck.driver.run(q)
+    for (l, im), h in zip(hc, hans):
+        tot["n"] += 1
+        tot["holds"] += 1
+        if h != "T":
+            fails.append(("property", l, im, "", f"holds C01 = {h}: after in-place edits of an already rendered tag the real output does not "
+                                                  f"parse to the tree the object now is"))
+    ck.tagc("render_after_edits", len(hc))
+    ck.exhaustive_scopes.append({"scope": "render – edit in place through the public API – render again histories (stale-state detection)", "exhaustive": False})
     ck.holds_checked = tot["holds"]
     ck.distinct_nontrivial = tot["guard"]
     ck.extra_cov.update(extra_evaluations=tot["n"], exact_agree=tot["exact"], guard_true=tot["guard"],
